@@ -76,7 +76,8 @@ VEC_OPTS = {
     "ods": [{}],
     "xls": [{}],
     "epub": [{}],
-    "mbox": [{}, {"separator": "no-blank-line"}, {"separator": "crlf"}],
+    "mbox": [{}, {"separator": "no-blank-line"}, {"separator": "crlf"}, {"envelope": "daemon"}, {"envelope": "dash"},
+             {"envelope": "daemon", "envelope_first": "address"}],
 }
 VEC_FORMATS = list(VEC_KINDS)
 SINGLE_KINDS = {"html": ["text", "empty", "ws", "img", "tbl"], "mhtml": ["text", "empty", "ws", "img", "tbl"],
